@@ -211,12 +211,10 @@ func evaluate(c *Case, out *outcome, s liveSnap) verdict {
 	if v.premiseB {
 		rc := replyCodec(c)
 		for _, rep := range repliesSent(c) {
+			// the send limit bounds the encoded reply, whatever its size
+			// after compression
 			enc, ok := replyEnc(rc, rep)
 			if !ok || len(enc) > Ls {
-				v.premiseB = false
-				break
-			}
-			if c.Gzip && grpcFamily(c) && len(wire.Gzip(enc))+16 > Ls {
 				v.premiseB = false
 				break
 			}
@@ -342,10 +340,13 @@ func repliesDiffer(c *Case, out *outcome) string {
 // keyClass coarsens the size class for finding keys: replies below, at and
 // above the send limit.
 func keyClass(class string) string {
+	if base, ok := strings.CutSuffix(class, "/incompressible"); ok {
+		return keyClass(base) + "/incompressible"
+	}
 	switch class {
-	case "reply=Ls-1", "reply=Lr+1", "reply=10Lr":
+	case "reply=Ls-40", "reply=Ls-27", "reply=Ls-1", "reply=Lr+1", "reply=10Lr":
 		return "reply<Ls"
-	case "reply=Ls+1", "reply=10Ls":
+	case "reply=Ls+1", "reply=Ls+100", "reply=10Ls":
 		return "reply>Ls"
 	}
 	if i := strings.LastIndex(class, "/total="); i >= 0 {
@@ -702,35 +703,73 @@ func (g *gen) replyProbes(e *env, l laneSpec, rng *rand.Rand) {
 	var probes []rp
 	if e.lsend > 0 {
 		Ls := e.lsend
-		probes = []rp{{"reply=Ls-1", Ls - 1}, {"reply=Ls", Ls}, {"reply=Ls+1", Ls + 1}, {"reply=10Ls", 10 * Ls}}
+		probes = []rp{{"reply=Ls-40", Ls - 40}, {"reply=Ls-27", Ls - 27}, {"reply=Ls-1", Ls - 1}, {"reply=Ls", Ls},
+			{"reply=Ls+1", Ls + 1}, {"reply=Ls+100", Ls + 100}, {"reply=10Ls", 10 * Ls}}
 	} else {
 		Lr := e.lrecvEff()
 		probes = []rp{{"reply=Lr+1", Lr + 1}, {"reply=10Lr", 10 * Lr}}
 	}
 	rc := replyCodec(&Case{Shape: l.shape, Codec: l.codec})
+	grpcLane := grpcFamily(&Case{Proto: l.proto})
+	// HTTP replies may be compressed when the client accepts it
+	acceptGzip := l.proto == "http" && !l.gz && !l.eofData && l.transport == "inproc" && (l.shape == "unary" || l.shape == "downloadu")
+	// payload compressibility is a dimension wherever replies can be compressed
+	kinds := []string{""}
+	if (grpcLane && l.gz) || acceptGzip {
+		kinds = []string{"", "/incompressible"}
+	}
 	for _, pr := range probes {
-		rep, ok := replyFor(rc, pr.n, p)
-		if !ok || pr.n < 0 {
-			g.r.Count("size_not_realisable_in_codec", 1)
+		if pr.n < 0 {
 			continue
 		}
-		variants := [][][]byte{{rep}}
-		if l.shape == "ss" || l.shape == "bidi" {
-			if small, ok := replyFor(rc, 2, p); ok {
-				variants = append(variants, [][]byte{small, rep})
+		for _, kind := range kinds {
+			var rep []byte
+			var ok bool
+			if kind == "" {
+				pp := p
+				if acceptGzip {
+					pp.compressible = true
+				}
+				rep, ok = replyFor(rc, pr.n, pp)
+			} else {
+				rep, ok = replyForRandom(rc, pr.n, rng)
 			}
-		}
-		for _, reps := range variants {
-			c := g.newCase(e, l, "reply", pr.class)
-			if l.shape != "download" && l.shape != "downloadu" {
-				c.Reqs = [][]byte{minimalReq(l, e.lrecvEff())}
-				if len(c.Reqs[0]) > e.lrecvEff() {
-					g.r.Count("reply_probe_skipped_no_request_fits_limit", 1)
-					continue
+			if !ok {
+				g.r.Count("size_not_realisable_in_codec", 1)
+				continue
+			}
+			variants := [][][]byte{{rep}}
+			if (l.shape == "ss" || l.shape == "bidi") && kind == "" {
+				if small, ok := replyFor(rc, 2, p); ok {
+					variants = append(variants, [][]byte{small, rep})
 				}
 			}
-			c.Replies, c.Probe, c.NRead = reps, len(reps)-1, 1
-			g.run(e, c)
+			for _, reps := range variants {
+				c := g.newCase(e, l, "reply", pr.class+kind)
+				if l.shape != "download" && l.shape != "downloadu" {
+					c.Reqs = [][]byte{minimalReq(l, e.lrecvEff())}
+					if len(c.Reqs[0]) > e.lrecvEff() {
+						g.r.Count("reply_probe_skipped_no_request_fits_limit", 1)
+						continue
+					}
+					if grpcLane && l.gz && len(wire.Gzip(c.Reqs[0])) > e.lrecvEff() {
+						// the request would not fit once compressed: send it
+						// uncompressed (flag 0), the reply is still compressed
+						c.Flags = "0"
+					}
+				}
+				c.Replies, c.Probe, c.NRead = reps, len(reps)-1, 1
+				if kind == "" {
+					g.run(e, c)
+				}
+				if acceptGzip {
+					cc := *c
+					cc.ID, cc.AcceptGzip = g.nextID(), true
+					g.run(e, &cc)
+				} else if kind != "" {
+					g.run(e, c)
+				}
+			}
 		}
 	}
 }
